@@ -39,7 +39,7 @@ class CheckC15(core.Check):
     cfg = "A"
     rule = (
         "case = one session (stateful or stateless) driven through a sequence over {write+deliver / write+drop in either direction, "
-        "rekey_outgoing / rekey_incoming on either side, manual rekey of either direction on either side with one of two keys}; every "
+        "rekey_outgoing / rekey_incoming on either side, manual rekey of either direction on either side with one of two keys (random, all-zero, all-ones), a back end with its own REKEY}; every "
         "written message compared byte-for-byte with the model's AEAD under the model key (REKEY per spec 4.2), every delivery accepted iff "
         "keys agree (and counters match), nonce getters unchanged by rekeys; exhaustive to the depth bound, random to depth 30; distinct key = "
         "(cipher, backend, mode, sequence); non-trivial = sequence contains a rekey followed by at least one judged message"
@@ -68,6 +68,15 @@ class CheckC15(core.Check):
             ln = rnd.randrange(4, 31)
             seq = [rnd.randrange(len(SYMS)) if rnd.random() < 0.5 else rnd.randrange(4) for _ in range(ln)]
             descs.append((rnd.choice(CIPHERS), rnd.choice(["D", "R", "DR"]), rnd.choice(["tr", "sl", "mixA", "mixB"]), ".".join(map(str, seq))))
+        # special manual keys (all zero, all ones) - exhaustive to depth 2 over the manual-rekey and write symbols, and random
+        msyms = [i for i, x in enumerate(SYMS[:NBASE]) if x[0] in "wm"]
+        for ci in CIPHERS:
+            for mode in ("tr", "sl"):
+                for ln in (2, 3):
+                    for seq in itertools.product(msyms, repeat=ln):
+                        if SYMS[seq[0]][0] != "m" or SYMS[seq[-1]][0] != "w" or (ln == 3 and rnd.random() < 0.9):
+                            continue
+                        descs.append((ci, "D", mode, ".".join(map(str, seq)), "XX" + "0f"[len(descs) % 2]))
         # one endpoint stateless, the other stateful (mixA: initiator stateless; mixB: responder stateless)
         # rekeys issued while a counter sits on 2^64-1 (stateful), exhaustively to length 3 over a small alphabet
         for ci in CIPHERS:
@@ -103,10 +112,15 @@ class CheckC15(core.Check):
     def build(self, desc):
         ci, be, mode, seqs = desc[:4]
         pat = desc[4] if len(desc) > 4 else "XX"
+        # "<pattern>0": manual key 1 is the all-zero key (a key like any other), "<pattern>f": all 0xff
+        K1, K2 = globals()["K1"], globals()["K2"]
+        if pat[-1] in "0f":
+            K1 = bytes(32) if pat[-1] == "0" else b"\xff" * 32
+            pat = pat[:-1]
         name = "Noise_%s_25519_%s_SHA256" % (pat, ci)
         parsed = parse_name_simple(name)
         keys = sessions.Keys(parsed, 15)
-        c = Case("rk-%s-%s-%s-%s-%s" % (pat, ci, be, mode, seqs), desc)
+        c = Case("rk-%s-%s-%s-%s-%s" % (desc[4] if len(desc) > 4 else "XX", ci, be, mode, seqs), desc)
         sessions.add_pair(c, parsed, keys, res=(be, be), rng=("script:3", "script:4"), rec=("c", "c"))
         sessions.add_handshake(c, parsed, ["-"] * parsed.nmsgs)
         stp = {"A": mode in ("sl", "mixA"), "B": mode in ("sl", "mixB")}
@@ -174,7 +188,7 @@ class CheckC15(core.Check):
             r.foreign_dev("C10", "driver died")
             return r
         ci, be, mode, seqs = case.info["key"][:4]
-        tag = "%s/%s/%s%s" % (ci, be, mode, "/one-way" if len(case.info["key"]) > 4 else "")
+        tag = "%s/%s/%s%s" % (ci, be, mode, ("/" + case.info["key"][4]) if len(case.info["key"]) > 4 else "")
         st = case.info["st"]
         by = {e.label: e for e in events}
         # initial keys: the last two `c set` events on each party during the handshake (Split: initiator key, responder key)
